@@ -201,6 +201,99 @@ def pairs(xs):
     return "[" + "; ".join("(%s, %s)" % p for p in xs) + "]"
 
 
+# ---- purity of the algebra: no in-place update of arrays reachable from self or from an operand ---------------------------
+PURITY_FILES = ["bempp_cl/api/assembly/discrete_boundary_operator.py", "bempp_cl/api/assembly/blocked_operator.py",
+                "bempp_cl/api/assembly/boundary_operator.py", "bempp_cl/api/assembly/grid_function.py",
+                "bempp_cl/api/assembly/potential_operator.py"]
+FRESH_CALLS = {"full", "zeros", "empty", "ones", "eye", "array", "zeros_like", "empty_like", "copy", "astype", "arange", "vstack", "hstack",
+               "block", "outer", "diag", "tile", "repeat", "flatnonzero", "coo_matrix", "promote_types", "dtype", "result_type",
+               "len", "range", "list", "tuple", "set", "int", "float", "sum", "max"}
+
+
+def _root(node):
+    while isinstance(node, (ast.Attribute, ast.Subscript, ast.Call)):
+        node = node.func if isinstance(node, ast.Call) else node.value
+    return node.id if isinstance(node, ast.Name) else None
+
+
+def _is_fresh_expr(node, fresh):
+    """Conservative: an expression certainly denotes a newly allocated value (or an immutable scalar)."""
+    if isinstance(node, ast.Constant):
+        return True
+    if isinstance(node, (ast.BinOp, ast.UnaryOp, ast.Compare, ast.BoolOp, ast.List, ast.ListComp, ast.Tuple, ast.Dict, ast.JoinedStr)):
+        return True                                   # numpy arithmetic allocates its result
+    if isinstance(node, ast.Name):
+        return node.id in fresh
+    if isinstance(node, ast.Subscript):               # a view of a fresh array is local to the function
+        return _is_fresh_expr(node.value, fresh)
+    if isinstance(node, ast.Call):
+        f = node.func
+        name = f.attr if isinstance(f, ast.Attribute) else (f.id if isinstance(f, ast.Name) else None)
+        if name in FRESH_CALLS:
+            return True
+        if isinstance(f, ast.Name) and f.id[:1].isupper():      # constructing an object
+            return True
+    return False
+
+
+def inplace_findings(files):
+    """[(file, function, line, text)]: augmented assignments, subscript stores, `out=` and .fill()/.sort() applied to values that
+    may alias `self`, an argument, or what a method of them returned (to_dense(), weak_form(), coefficients, ...)."""
+    out = []
+    for rel in PURITY_FILES:
+        tree = files.tree(rel)
+        private_kernels = {n.name for n in tree.body if isinstance(n, ast.FunctionDef) and n.name.startswith("_")}
+        for fn in [n for n in ast.walk(tree) if isinstance(n, ast.FunctionDef)]:
+            if fn.name in private_kernels:
+                continue       # module-level numba kernels fill output buffers handed in by their (checked) callers
+            fresh = set()
+            nested = [n for n in ast.walk(fn) if isinstance(n, ast.FunctionDef) and n is not fn]
+            skip = {id(x) for n in nested for x in ast.walk(n)}
+            stmts = [n for n in ast.walk(fn) if id(n) not in skip]
+            # names that are only ever bound to fresh values (two passes are enough for the straight-line code at hand)
+            for _ in range(3):
+                for n in stmts:
+                    if isinstance(n, ast.Assign) and len(n.targets) == 1 and isinstance(n.targets[0], ast.Name):
+                        if _is_fresh_expr(n.value, fresh):
+                            fresh.add(n.targets[0].id)
+                    if isinstance(n, (ast.For, ast.comprehension)) and isinstance(n.target, ast.Name):
+                        if isinstance(n.iter, ast.Call) and _root(n.iter) in ("range", "enumerate", "zip"):
+                            fresh.add(n.target.id)
+                for n in stmts:       # a name that is also bound to a non-fresh value is not fresh
+                    if isinstance(n, ast.Assign) and len(n.targets) == 1 and isinstance(n.targets[0], ast.Name):
+                        if not _is_fresh_expr(n.value, fresh):
+                            fresh.discard(n.targets[0].id)
+            for n in stmts:
+                tgt = None
+                if isinstance(n, ast.AugAssign):
+                    tgt = n.target
+                    if isinstance(tgt, ast.Attribute) and _u(tgt.value) == "self" and isinstance(n.value, ast.Constant):
+                        continue                       # counters such as self._count += 1
+                elif isinstance(n, ast.Assign):
+                    for t in n.targets:
+                        if isinstance(t, ast.Subscript):
+                            tgt = t
+                elif isinstance(n, ast.Call):
+                    if any(k.arg == "out" for k in n.keywords):
+                        tgt = [k.value for k in n.keywords if k.arg == "out"][0]
+                    elif isinstance(n.func, ast.Attribute) and n.func.attr in ("fill", "sort", "resize", "itemset", "put"):
+                        tgt = n.func.value
+                if tgt is None:
+                    continue
+                base = tgt
+                while isinstance(base, ast.Subscript):
+                    base = base.value
+                if isinstance(base, ast.Name) and base.id in fresh:
+                    continue
+                if isinstance(tgt, ast.Subscript) and isinstance(base, ast.Attribute) and _u(base.value) == "self" and \
+                        fn.name in ("__init__", "__setitem__"):
+                    continue                           # filling the object's own containers while it is being built
+                if isinstance(tgt, ast.Name) and tgt.id in fresh:
+                    continue
+                out.append((rel, fn.name, n.lineno, _u(n)[:80]))
+    return out
+
+
 def cache_keys(ctx):
     files = Files(ctx)
     check_edges(files)
@@ -246,8 +339,13 @@ def cache_keys(ctx):
     info["mass_memo"] = "global-at-first-call"
     lines.append("(* Space.mass_matrix: memo per space object, built by identity(self, self, self) with parameters=None,")
     lines.append("   i.e. a sparse operator on the global parameter object, assembled at the first call *)")
+    inpl = inplace_findings(files)
+    info["inplace"] = inpl
+    lines.append("(* in-place updates of arrays that may alias self / an operand / a cached weak form, found in the algebra files: *)")
+    lines.append("Definition inplace_updates : list (string * string * nat) := [%s]." % "; ".join(
+        '("%s", "%s", %d%%nat)' % (rel.split("/")[-1], fnn, ln) for rel, fnn, ln, _ in inpl))
     lines.append("Definition cur : tables := {| t_reads := cur_reads; t_caches := cur_caches; t_mass_kind := KSparse; "
-                 "t_mass_global := true |}.")
+                 "t_mass_global := true; t_pure := match inplace_updates with [] => true | _ => false end |}.")
     # get_mass_matrix / get_inverse_mass_matrix use the memo only when domain == dual
     ctx.write_gen("CacheKeys.v", "\n".join(lines) + "\n")
     return info
